@@ -71,7 +71,10 @@ Record fnode' := { n_id : nat; n_alias : option string; n_name : string; n_sub :
 
 Definition auto_node : fnode' := {| n_id := 0; n_alias := None; n_name := "__typename"; n_sub := None |}.
 
-Fixpoint resolve' (fuel : nat) (Sc : schema) (frs : list fdef) (sels : list fsel) (root : string)
+(* [cond]: some enclosing inline fragment / spread carries @skip or @include (e47d9e8: such a spread is
+   never a mixin base class, it is unpacked; the collected fields are copies that share their
+   selection sets with the authored nodes, so the __typename insertion still lands in the document) *)
+Fixpoint resolve' (fuel : nat) (Sc : schema) (frs : list fdef) (cond : bool) (sels : list fsel) (root : string)
   : res (list fnode' * list string * list string) :=
   match fuel with
   | O => Err "fuel"
@@ -83,26 +86,27 @@ Fixpoint resolve' (fuel : nat) (Sc : schema) (frs : list fdef) (sels : list fsel
         | FAuto => Ok (fields ++ [auto_node], mixins, unp)
         | FField id al n _ _ sub =>
             Ok (fields ++ [{| n_id := id; n_alias := al; n_name := n; n_sub := sub |}], mixins, unp)
-        | FSpread n _ =>
+        | FSpread n ds =>
+            let sub_cond := cond || has_cond ds in
             match lookup_fdef frs n with
             | None => Err "KeyError: fragment"
             | Some f =>
                 match lookup_type Sc root, lookup_type Sc (fd_on f) with
                 | Some _, Some fd =>
-                    if negb (unpack_fragment Sc (proj_frag f) (Some root))
+                    if negb sub_cond && negb (unpack_fragment Sc (proj_frag f) (Some root))
                     then Ok (fields, mixins ++ [n], unp)
                     else if String.eqb (fd_on f) root || (is_abstract fd && is_sub_type Sc (fd_on f) root)
-                    then q <- resolve' fuel' Sc frs (fd_sel f) root ;;
+                    then q <- resolve' fuel' Sc frs sub_cond (fd_sel f) root ;;
                          let '(f2, m2, u2) := q in
                          Ok (fields ++ f2, mixins ++ m2, unp ++ n :: u2)
                     else Ok (fields, mixins, unp)
                 | _, _ => Err "KeyError: type"
                 end
             end
-        | FInline tc _ sub =>
+        | FInline tc ds sub =>
             (* since 7309cba a missing type condition means the enclosing type *)
             match inline_root_type Sc (match tc with Some tc => tc | None => root end) root with
-            | Some r => q <- resolve' fuel' Sc frs sub r ;;
+            | Some r => q <- resolve' fuel' Sc frs (cond || has_cond ds) sub r ;;
                         let '(f2, m2, u2) := q in
                         Ok (fields ++ f2, mixins ++ m2, unp ++ u2)
             | None => Ok (fields, mixins, unp)
@@ -127,7 +131,7 @@ Fixpoint ptd (fuel : nat) (C : cfg) (Sc : schema) (frs : list fdef) (pfrs : list
       if mem class_name (ps_pub st) then Ok st
       else
         let sels := match sid with Some id => view (ps_ins st) id raw | None => raw end in
-        rf <- resolve' fuel' Sc frs sels type_name ;;
+        rf <- resolve' fuel' Sc frs false sels type_name ;;
         let '(fields0, mix, unp) := rf in
         let insert := add_typename
                       && negb (existsb (fun f => String.eqb (n_name f) "__typename") fields0) in
